@@ -17,14 +17,20 @@ import (
 // the thorough tier: longer than any keep-alive, idle or enforcement period of the transports), and then everything is
 // used again. params: proto, idle (ms).
 func init() {
+	registerIdle("idle_session", 20*time.Minute)
+	// the same session over months of (virtual) uptime: a scenario of its own because of its horizon
+	registerIdle("uptime_session", 420*24*time.Hour)
+}
+
+func registerIdle(name string, horizon time.Duration) {
 	explore.Register(&explore.Scenario{
-		Name:    "idle_session",
-		Horizon: 20 * time.Minute,
+		Name:    name,
+		Horizon: horizon,
 		Settle:  5 * time.Second,
 		Body: func(x *vs.Exec, p explore.Params) {
 			proto := p["proto"]
 			x.Hold()
-			lc := newLive(x, liveOpts{proto: proto})
+			lc := newLive(x, liveOpts{proto: proto, autoMTLS: p["tls"] == "auto"})
 			x.Put("lc", lc)
 			obj, err := lc.connect()
 			x.Release()
@@ -135,6 +141,18 @@ func init() {
 		},
 		Instances: func(tier string) []explore.Params {
 			var out []explore.Params
+			if name == "uptime_session" { // 200 and 400 days (in ms), with and without AutoMTLS
+				// (gRPC without multiplexing only: yamux's 30 s keep-alive would tick half a million times)
+				for _, proto := range []string{"grpc"} {
+					for _, tl := range []string{"auto", ""} {
+						out = append(out, explore.Params{"proto": proto, "idle": "17280000000", "tls": tl})
+						if tier == "thorough" {
+							out = append(out, explore.Params{"proto": proto, "idle": "34560000000", "tls": tl})
+						}
+					}
+				}
+				return out
+			}
 			idles := []string{"150000"}
 			if tier == "thorough" {
 				idles = append(idles, "45000", "720000")
